@@ -32,16 +32,19 @@ Section D.
   Lemma create_dag_ok c ts E desel :
     cdag c ts = DagOk E desel ->
     has_cycle (base_edges ts) = false /\ dup_products ts (base_edges ts) = false /\
-    exists AE, all_after_edges is_word lower ts ts = Some AE /\ E = base_edges ts ++ AE.
+    exists AE, all_after_edges is_word lower ts ts = Some AE /\ E = base_edges ts ++ AE /\ has_cycle E = false.
   Proof.
     unfold create_dag.
     destruct (has_cycle (base_edges ts)); [discriminate|].
     destruct (dup_products ts (base_edges ts)); [discriminate|].
     destruct (all_after_edges is_word lower ts ts) as [AE|]; [|discriminate].
-    intros H. repeat split; auto. exists AE. split; auto.
-    repeat match type of H with
-           | match ?x with _ => _ end = _ => destruct x; try discriminate
-           end; inversion H; reflexivity.
+    destruct (has_cycle (base_edges ts ++ AE)) eqn:HC; [discriminate|].
+    intros H. repeat split; auto. exists AE.
+    assert (E = base_edges ts ++ AE).
+    { repeat match type of H with
+             | match ?x with _ => _ end = _ => destruct x; try discriminate
+             end; inversion H; reflexivity. }
+    subst E. auto.
   Qed.
 
   (* C09 (soundness): a cycle through dependencies and products, or a product declared by
@@ -98,19 +101,39 @@ Section D.
 
   (* C09 (completeness): an acyclic graph with unique producers whose expressions parse is
      accepted *)
-  Theorem wellformed_accepted c ts :
+  Theorem wellformed_accepted c ts AE :
     has_cycle (base_edges ts) = false -> dup_products ts (base_edges ts) = false ->
-    all_after_edges is_word lower ts ts <> None ->
+    all_after_edges is_word lower ts ts = Some AE ->
+    has_cycle (base_edges ts ++ AE) = false ->
     (forall e, kexpr c = Some e -> e <> [] -> exists a, compile is_word e = Ok a) ->
     (forall e, mexpr c = Some e -> e <> [] -> exists a, compile is_word e = Ok a) ->
     exists E desel, cdag c ts = DagOk E desel.
   Proof.
-    intros H1 H2 H3 HK HM. unfold create_dag. rewrite H1, H2.
-    destruct (all_after_edges is_word lower ts ts) as [AE|]; [|congruence].
+    intros H1 H2 H3 H4 HK HM. unfold create_dag. rewrite H1, H2, H3, H4.
     destruct (kexpr c) as [[|k0 ke]|] eqn:K; destruct (mexpr c) as [[|m0 me]|] eqn:M;
       try (destruct (HK _ eq_refl) as [a Ha]; [discriminate|rewrite Ha]);
       try (destruct (HM _ eq_refl) as [a' Ha']; [discriminate|rewrite Ha']);
       eauto.
+  Qed.
+
+  (* after the fix of F3: a cycle through any mix of dependencies, products and `after`
+     edges is rejected by create_dag itself *)
+  Theorem accepted_graph_acyclic c ts E desel :
+    cdag c ts = DagOk E desel -> forall v, ~ Reach E v v.
+  Proof.
+    intros D. destruct (create_dag_ok _ _ _ _ D) as (_ & _ & AE & _ & -> & HC).
+    apply has_cycle_false_acyclic. exact HC.
+  Qed.
+
+  Theorem full_cycle_rejected c ts AE v :
+    all_after_edges is_word lower ts ts = Some AE -> Reach (base_edges ts ++ AE) v v ->
+    cdag c ts = DagErr.
+  Proof.
+    intros HA R. unfold create_dag.
+    destruct (has_cycle (base_edges ts)); [reflexivity|].
+    destruct (dup_products ts (base_edges ts)); [reflexivity|]. rewrite HA.
+    assert (H : has_cycle (base_edges ts ++ AE) = true) by (apply has_cycle_iff; eauto).
+    rewrite H. reflexivity.
   Qed.
 
   (* declarations are edges of the accepted graph *)
@@ -118,7 +141,7 @@ Section D.
     cdag c ts = DagOk E desel -> In u ts -> In t ts -> In p (prods u) -> In p (deps t) ->
     Reach E (tid u) (tid t).
   Proof.
-    intros D U T P Q. destruct (create_dag_ok _ _ _ _ D) as (_ & _ & AE & _ & ->).
+    intros D U T P Q. destruct (create_dag_ok _ _ _ _ D) as (_ & _ & AE & _ & -> & _).
     eapply RS.
     - apply in_or_app. left. apply base_edges_prod; eauto.
     - apply R1. apply in_or_app. left. apply base_edges_dep; auto.
@@ -143,7 +166,7 @@ Section D.
     find_task ts ui = Some u -> In p (prods u) ->
     Reach E ui (tid t).
   Proof.
-    intros D T A F P. destruct (create_dag_ok _ _ _ _ D) as (_ & _ & AE & HA & ->).
+    intros D T A F P. destruct (create_dag_ok _ _ _ _ D) as (_ & _ & AE & HA & -> & _).
     destruct (all_after_edges_In _ _ _ _ HA T) as [a [Ha Hi]].
     unfold after_edges_of in Ha.
     destruct (match after_expr t with None => Some [] | Some e => after_matches is_word lower ts (tid t) e end)
@@ -174,6 +197,7 @@ Section D.
     destruct (dup_products ts (base_edges ts)); [discriminate|].
     destruct (all_after_edges is_word lower ts ts) as [AE|]; [|discriminate].
     set (E' := base_edges ts ++ AE).
+    destruct (has_cycle E'); [discriminate|].
     destruct (kexpr c) as [[|k0 ke]|] eqn:K; destruct (mexpr c) as [[|m0 me]|] eqn:M;
       try destruct (compile is_word (k0 :: ke)) as [ak| |] eqn:CK; try discriminate;
       try destruct (compile is_word (m0 :: me)) as [am| |] eqn:CM; try discriminate;
